@@ -79,6 +79,13 @@ def replay (j : Json) : R Verdict := do
           pf := ("C17", s!"op {i}: mutation with probability 1 left a boolean / enum / variant / optional / map size unchanged") :: pf
         if !(resizeLocal mp s cross out) then
           pf := ("C13", s!"op {i}: a resizable map was not resized by exactly one fresh/removed key (mutation probability class {repr mp})") :: pf
+    -- `to_json` panics exactly on the values the model calls not `jsonable`
+    match (fieldD op "mut").isNull, decValue (fieldD op "mut") with
+    | false, .ok outV =>
+      let panicked := !(fieldD op "jsonPanic").isNull
+      if panicked == jsonable outV then
+        if dis.isNone then dis := some s!"op {i}: Value::to_json {if panicked then "panicked" else "did not panic"} on a value the model calls {if jsonable outV then "writable" else "not writable"}"
+    | _, _ => pure ()
     match (fieldD op "jsonPanic").getStr?.toOption with
     | some m => pf := ("C15", s!"op {i}: the value produced by mutation cannot be written as JSON (Value::to_json panics: {m}); a run crashes when it hands this individual to the objective function") :: pf
     | none => pure ()
